@@ -4,7 +4,7 @@ from vlib.gen_traj import traj_block, yaw_block, probe_times, f2b, PINF, NINF
 from vlib.skyb import hx
 
 PID = "C08"
-LEAN_MODULE = "Sb.Properties.C08"
+LEAN_MODULE = "Sb.Properties.C08Float"
 THEOREMS = [
     "Sb.C08.runQuery_spec", "Sb.C08.runHistory_inv", "Sb.C08.trajectory_answers_history_free",
     "Sb.C08.trajectory_boundary_adjoining",
@@ -12,7 +12,9 @@ THEOREMS = [
     "Sb.Proofs.buildSegment_total", "Sb.Proofs.seekLoop_eq_cseek", "Sb.Proofs.traj_tiling",
     "Sb.Proofs.getDpoly_coh", "Sb.Proofs.getDdpoly_coh",
             "Sb.C08Yaw.yaw_answers_history_free", "Sb.C08Yaw.yaw_answers_history_free_of_block", "Sb.C08Yaw.runYHistory_inv",
-            "Sb.Proofs.yaw_seekLoop_eq_cseek", "Sb.Proofs.yaw_tiling", "Sb.Proofs.noYawOverflow_of_block", "Sb.Proofs.noWrapYaw_of_block"]
+            "Sb.Proofs.yaw_seekLoop_eq_cseek", "Sb.Proofs.yaw_tiling", "Sb.Proofs.noYawOverflow_of_block", "Sb.Proofs.noWrapYaw_of_block",
+            "Sb.C08.monoSec_secF32", "Sb.C08.trajectory_answers_history_free_float", "Sb.C08.trajectory_answers_history_free_of_block",
+            "Sb.C08.yaw_answers_history_free_float", "Sb.Proofs.roundF32_mono", "Sb.Proofs.floorLog2_spec", "Sb.Proofs.noWrap_of_block"]
 RULE = ("trajectory and yaw blocks with positive segment durations; for each object every ordering of up to 4 (quick) / 5 (thorough) "
         "probe times drawn from {-inf, 0, boundaries, boundary±1ulp, interior, end, beyond, +inf} with query kinds rotating over "
         "position/velocity/acceleration/duration (yaw: yaw/rate/duration), plus seeded random walks of 200 (quick) / 10000 (thorough) "
